@@ -655,6 +655,22 @@ func setAnythingFromAnything(src reflect.Value, dst reflect.Value) {
 		return
 	}
 
+	if src.Kind() == reflect.Interface && !src.IsNil() && dst.Kind() != reflect.Interface {
+		// The source was built into an interface; convert what it holds.
+		setAnythingFromAnything(src.Elem(), dst)
+		return
+	}
+
+	if src.Kind() == reflect.Ptr && dst.Kind() != reflect.Ptr && dst.Kind() != reflect.Interface {
+		// The source was built as a pointer; the destination wants the value it points to.
+		if src.IsNil() {
+			dst.Set(reflect.Zero(dst.Type()))
+		} else {
+			setAnythingFromAnything(src.Elem(), dst)
+		}
+		return
+	}
+
 	switch dst.Kind() {
 	case reflect.Bool:
 		if src.Kind() == reflect.Bool {
@@ -687,7 +703,11 @@ func setAnythingFromAnything(src reflect.Value, dst reflect.Value) {
 	case reflect.Struct:
 		panic("TODO: setAnythingFromAnything: Struct")
 	case reflect.Ptr:
-		panic("TODO: setAnythingFromAnything: Ptr")
+		// The destination wants a pointer to what the source holds.
+		ptr := reflect.New(dst.Type().Elem())
+		setAnythingFromAnything(src, ptr.Elem())
+		dst.Set(ptr)
+		return
 	}
 	PanicCannotConvert(src, dst.Type())
 }
